@@ -353,6 +353,7 @@ class TimeFixedGFormula:
         interventions. Biometrics, 68(2), 541-549.
         """
         # Checking for common problems before estimation
+        self.predicted_df = None
         if self._outcome_model is None:
             raise ValueError('Before the g-formula can be calculated, the outcome model must be specified')
         if self.exposure_type != 'binary':
